@@ -54,9 +54,9 @@ macro_rules! check_bounds_u32 {
         }
     };
 }
-// @unit name=check_bounds_u32_k3 props=C03 kind=bounded bound=indices=3_no_validity_len_symbolic fns=check_bounds tier=thorough note=not_confirmed_at_checkpoint
+// @unit name=check_bounds_u32_k3 props=C03 kind=bounded bound=indices=3_no_validity_len_symbolic fns=check_bounds tier=quick
 check_bounds_u32!(check_bounds_u32_k3, 3, false);
-// @unit name=check_bounds_u32_k3_nulls props=C03 kind=bounded bound=indices=3_validity_at_bit_offset=3_len_symbolic fns=check_bounds tier=thorough note=not_confirmed_at_checkpoint
+// @unit name=check_bounds_u32_k3_nulls props=C03 kind=bounded bound=indices=3_validity_at_bit_offset=3_len_symbolic fns=check_bounds tier=quick
 check_bounds_u32!(check_bounds_u32_k3_nulls, 3, true);
 
 // Contract (C03): check_bounds for *signed* Int8 indices. Upper bound, both directions on non-negative
@@ -95,10 +95,43 @@ macro_rules! check_bounds_i8 {
         }
     };
 }
-// @unit name=check_bounds_i8_k3 props=C03 kind=bounded bound=indices=3_no_validity_len_symbolic fns=check_bounds tier=thorough note=not_confirmed_at_checkpoint
+// @unit name=check_bounds_i8_k3 props=C03 kind=bounded bound=indices=3_no_validity_len_symbolic fns=check_bounds tier=quick
 check_bounds_i8!(check_bounds_i8_k3, 3, false);
-// @unit name=check_bounds_i8_k3_nulls props=C03 kind=bounded bound=indices=3_validity_at_bit_offset=3_len_symbolic fns=check_bounds tier=thorough note=not_confirmed_at_checkpoint
+// @unit name=check_bounds_i8_k3_nulls props=C03 kind=bounded bound=indices=3_validity_at_bit_offset=3_len_symbolic fns=check_bounds tier=quick
 check_bounds_i8!(check_bounds_i8_k3_nulls, 3, true);
+
+// Contract (C03): the documented behaviour of check_bounds ("verifies that the non-null values of indices
+// are all < len"; `take` "errors when an index is out of bounds and options is set to check bounds") for a
+// *signed* index type, both directions:  Ok <=> every valid index is in [0, len).  Null slots are ignored.
+// History: this contract failed on the tree as found (finding F5: the branch taken when the index array
+// contains nulls only tested `index >= len`, and the early return for a `len` that does not fit the index
+// type accepted everything, so a negative valid index was accepted and `take(.., Int8[-1, null],
+// check_bounds=true)` panicked in take_native instead of returning Err; reproduced natively). It is fixed in
+// /repo by 91aa63b; the unit passes on the fixed tree and reports VIOLATION on the pre-fix tree
+// (34 cpu s, concrete input len = 2, indices = Int8[-1, null]).
+// @unit name=check_bounds_i8_negative_finding props=C03 kind=bounded bound=indices=2_validity_present_len<=100 fns=check_bounds tier=quick
+#[kani::proof]
+#[kani::unwind(8)]
+#[kani::stub(alloc::fmt::format, stub_format)]
+fn check_bounds_i8_negative_finding() {
+    let idx: [i8; 2] = kani::any();
+    let bm: [u8; 1] = kani::any();
+    let len: usize = kani::any();
+    kani::assume(len <= 100);
+    let indices = idx_i8(&idx, Some(mk_nulls(&bm, 0, 2)));
+    let r = check_bounds(len, &indices);
+    let mut all_in = true;
+    let mut i = 0;
+    while i < 2 {
+        if bit(&bm, i) && (idx[i] < 0 || idx[i] as usize >= len) { all_in = false; }
+        i += 1;
+    }
+    assert!(r.is_ok() == all_in);
+    kani::cover!(r.is_ok());
+    kani::cover!(r.is_err());
+    std::mem::forget(r);
+    std::mem::forget(indices);
+}
 
 // ------------------------------------------------------------------------------------------------
 // take_native / take_nulls / take_bits  (grid: V values x K indices, validity presence per harness)
@@ -132,9 +165,11 @@ macro_rules! take_native_nonull {
         }
     };
 }
-// @unit name=take_native_i8_2x2 props=C03 kind=bounded bound=values=2_indices=2_no_index_validity mayreject=1 fns=take_native tier=thorough timeout=900 mem=8 note=not_confirmed_at_checkpoint
+// @unit name=take_native_i8_2x2 props=C03 kind=bounded bound=values=2_indices=2_no_index_validity mayreject=1 fns=take_native timeout=900 mem=8 tier=quick
 take_native_nonull!(take_native_i8_2x2, i8, idx_i8, 2, 2);
-// @unit name=take_native_u32_3x2 props=C03 kind=bounded bound=values=3_indices=2_no_index_validity mayreject=1 fns=take_native tier=thorough timeout=900 mem=8 note=not_confirmed_at_checkpoint
+// @unit name=take_native_i8_3x3 props=C03 kind=bounded bound=values=3_indices=3_no_index_validity mayreject=1 fns=take_native timeout=900 mem=8 tier=quick
+take_native_nonull!(take_native_i8_3x3, i8, idx_i8, 3, 3);
+// @unit name=take_native_u32_3x2 props=C03 kind=bounded bound=values=3_indices=2_no_index_validity mayreject=1 fns=take_native timeout=900 mem=8 tier=quick
 take_native_nonull!(take_native_u32_3x2, u32, idx_u32, 3, 2);
 
 // Contract (C03): take_native with an index validity bitmap (symbolic bits at bit offset 3),
@@ -174,15 +209,17 @@ macro_rules! take_native_nulls {
         }
     };
 }
-// @unit name=take_native_i8_2x2_nulls props=C03 kind=bounded bound=values=2_indices=2_index_validity_present fns=take_native tier=thorough timeout=900 mem=8 note=not_confirmed_at_checkpoint
+// @unit name=take_native_i8_2x2_nulls props=C03 kind=bounded bound=values=2_indices=2_index_validity_present fns=take_native timeout=900 mem=8 tier=quick
 take_native_nulls!(take_native_i8_2x2_nulls, i8, idx_i8, 2, 2);
-// @unit name=take_native_u32_3x2_nulls props=C03 kind=bounded bound=values=3_indices=2_index_validity_present fns=take_native tier=thorough timeout=900 mem=8 note=not_confirmed_at_checkpoint
+// @unit name=take_native_i8_3x3_nulls props=C03 kind=bounded bound=values=3_indices=3_index_validity_present fns=take_native timeout=900 mem=8 tier=quick
+take_native_nulls!(take_native_i8_3x3_nulls, i8, idx_i8, 3, 3);
+// @unit name=take_native_u32_3x2_nulls props=C03 kind=bounded bound=values=3_indices=2_index_validity_present fns=take_native timeout=900 mem=8 tier=quick
 take_native_nulls!(take_native_u32_3x2_nulls, u32, idx_u32, 3, 2);
 
 // Contract (C03): take_native with an index validity bitmap and an arbitrary (possibly out-of-range)
 // *valid* index: either a checked panic (may-reject) or the index was in range — never an unchecked read
 // (Kani's memory-safety checks are active on every path).
-// @unit name=take_native_i8_2x2_nulls_oob props=C03 kind=bounded bound=values=2_indices=2_index_validity_present mayreject=1 fns=take_native tier=thorough timeout=900 mem=8 note=not_confirmed_at_checkpoint
+// @unit name=take_native_i8_2x2_nulls_oob props=C03 kind=bounded bound=values=2_indices=2_index_validity_present mayreject=1 fns=take_native timeout=900 mem=8 tier=quick
 #[kani::proof]
 #[kani::unwind(8)]
 #[kani::stub(alloc::fmt::format, stub_format)]
@@ -252,11 +289,11 @@ macro_rules! take_nulls_unit {
         }
     };
 }
-// @unit name=take_nulls_v3_k2_values_nulls props=C03 kind=bounded bound=values=3_indices=2_values_validity_only fns=take_nulls,take_bits tier=thorough timeout=900 mem=8 note=not_confirmed_at_checkpoint
+// @unit name=take_nulls_v3_k2_values_nulls props=C03 kind=bounded bound=values=3_indices=2_values_validity_only fns=take_nulls,take_bits timeout=900 mem=8 tier=quick
 take_nulls_unit!(take_nulls_v3_k2_values_nulls, 3, 2, true, false);
-// @unit name=take_nulls_v3_k2_index_nulls props=C03 kind=bounded bound=values=3_indices=2_index_validity_only fns=take_nulls tier=thorough timeout=900 mem=8 note=not_confirmed_at_checkpoint
+// @unit name=take_nulls_v3_k2_index_nulls props=C03 kind=bounded bound=values=3_indices=2_index_validity_only fns=take_nulls timeout=900 mem=8 tier=quick
 take_nulls_unit!(take_nulls_v3_k2_index_nulls, 3, 2, false, true);
-// @unit name=take_nulls_v3_k2_both_nulls props=C03 kind=bounded bound=values=3_indices=2_both_validities fns=take_nulls,take_bits tier=thorough timeout=900 mem=8 note=not_confirmed_at_checkpoint
+// @unit name=take_nulls_v3_k2_both_nulls props=C03 kind=bounded bound=values=3_indices=2_both_validities fns=take_nulls,take_bits timeout=900 mem=8 tier=thorough
 take_nulls_unit!(take_nulls_v3_k2_both_nulls, 3, 2, true, true);
 
 // Contract (C03): take_bits(values_bits, indices): output has K bits and bit k == values bit idx[k] for
@@ -300,7 +337,173 @@ macro_rules! take_bits_unit {
         }
     };
 }
-// @unit name=take_bits_v3_k2 props=C03 kind=bounded bound=values=3_bits_indices=2_no_index_validity mayreject=1 fns=take_bits tier=thorough timeout=900 mem=8 note=not_confirmed_at_checkpoint
+// @unit name=take_bits_v3_k2 props=C03 kind=bounded bound=values=3_bits_indices=2_no_index_validity mayreject=1 fns=take_bits timeout=900 mem=8 tier=quick
 take_bits_unit!(take_bits_v3_k2, 3, 2, false);
-// @unit name=take_bits_v3_k2_nulls props=C03 kind=bounded bound=values=3_bits_indices=2_index_validity_present_valid_indices_in_range fns=take_bits tier=thorough timeout=900 mem=8 note=not_confirmed_at_checkpoint
+// @unit name=take_bits_v3_k2_nulls props=C03 kind=bounded bound=values=3_bits_indices=2_index_validity_present_valid_indices_in_range fns=take_bits timeout=900 mem=8 tier=thorough
 take_bits_unit!(take_bits_v3_k2_nulls, 3, 2, true);
+
+// ------------------------------------------------------------------------------------------------
+// layer 2: typed array wrappers
+// ------------------------------------------------------------------------------------------------
+
+// Contract (C03 + C01): take_boolean(values, indices) on a BooleanArray of 3 rows (values at bit offset 5,
+// validity at bit offset 1, all bits symbolic) and 2 Int8 indices (validity at bit offset 2), under
+// check_bounds' postcondition (valid indices in range, garbage under null slots): the result is a
+// well-formed BooleanArray of 2 rows; row k is null <=> index k is null \/ source row idx[k] is null;
+// otherwise it has the value of source row idx[k]; exact null count. Validity presence is concrete per
+// instance; the instance with both validities present was measured at > 1040 cpu s / 9.9 GB (killed), so
+// the two single-validity instances are kept (the row contract is the same formula).
+macro_rules! take_boolean_unit {
+    ($name:ident, $vnulls:expr, $inulls:expr) => {
+        #[kani::proof]
+        #[kani::unwind(8)]
+        #[kani::stub(alloc::fmt::format, stub_format)]
+        fn $name() {
+            const V: usize = 3;
+            const K: usize = 2;
+            let vb: [u8; 1] = kani::any();
+            let vbm: [u8; 1] = kani::any();
+            let idx: [i8; K] = kani::any();
+            let ibm: [u8; 1] = kani::any();
+            let mut k = 0;
+            while k < K {
+                if !$inulls || bit(&ibm, 2 + k) { kani::assume(idx[k] >= 0 && (idx[k] as usize) < V); }
+                k += 1;
+            }
+            let values = BooleanArray::new(BooleanBuffer::new(Buffer::from_slice_ref(&vb), 5, V), if $vnulls { Some(mk_nulls(&vbm, 1, V)) } else { None });
+            let indices = idx_i8(&idx, if $inulls { Some(mk_nulls(&ibm, 2, K)) } else { None });
+            let out = take_boolean(&values, &indices);
+            assert!(out.len() == K);
+            let mut z = 0;
+            k = 0;
+            while k < K {
+                let null = ($inulls && !bit(&ibm, 2 + k)) || ($vnulls && !bit(&vbm, 1 + idx[k] as usize));
+                assert!(out.is_null(k) == null);
+                if null { z += 1 } else { assert!(out.value(k) == bit(&vb, 5 + idx[k] as usize)); }
+                k += 1;
+            }
+            assert!(out.null_count() == z);
+            kani::cover!(z == 1);
+            kani::cover!(z == 0 && out.value(0) != out.value(1));
+            std::mem::forget(out);
+            std::mem::forget(indices);
+            std::mem::forget(values);
+        }
+    };
+}
+// @unit name=take_boolean_v3_k2_index_nulls props=C03,C01 kind=bounded bound=values=3_indices=2_index_validity_only fns=take_boolean,take_bits,take_nulls timeout=900 mem=8 tier=thorough
+take_boolean_unit!(take_boolean_v3_k2_index_nulls, false, true);
+// @unit name=take_boolean_v3_k2_values_nulls props=C03,C01 kind=bounded bound=values=3_indices=2_values_validity_only fns=take_boolean,take_bits,take_nulls timeout=900 mem=8 tier=quick
+take_boolean_unit!(take_boolean_v3_k2_values_nulls, true, false);
+
+// Contract (C03 + C01, single attempt): take_primitive::<Int32Type, Int8Type>(values, indices) — same row
+// contract on an Int32 array (2 values x 2 indices, both validities). The wrapper ends in
+// try_new(..)?.with_data_type(values.data_type().clone()), i.e. a DataType clone/compare/drop inside the callee.
+// @unit name=take_primitive_i8_2x2 props=C03,C01 kind=bounded bound=values=2_indices=2_both_validities fns=take_primitive,take_native,take_nulls timeout=900 mem=10 tier=thorough note=not_confirmed_out_of_memory_measured
+#[kani::proof]
+#[kani::unwind(8)]
+#[kani::stub(alloc::fmt::format, stub_format)]
+fn take_primitive_i8_2x2() {
+    const V: usize = 2;
+    const K: usize = 2;
+    let vals: [i32; V] = kani::any();
+    let vbm: [u8; 1] = kani::any();
+    let idx: [i8; K] = kani::any();
+    let ibm: [u8; 1] = kani::any();
+    let mut k = 0;
+    while k < K {
+        if bit(&ibm, 2 + k) { kani::assume(idx[k] >= 0 && (idx[k] as usize) < V); }
+        k += 1;
+    }
+    let values = unsafe {
+        PrimitiveArray::<arrow_array::types::Int32Type>::new_unchecked(ScalarBuffer::new(Buffer::from_slice_ref(&vals), 0, V), Some(mk_nulls(&vbm, 1, V)))
+    };
+    let indices = idx_i8(&idx, Some(mk_nulls(&ibm, 2, K)));
+    let r = take_primitive(&values, &indices);
+    match &r {
+        Ok(out) => {
+            assert!(out.len() == K);
+            k = 0;
+            while k < K {
+                let null = !bit(&ibm, 2 + k) || !bit(&vbm, 1 + idx[k] as usize);
+                assert!(out.is_null(k) == null);
+                if !null { assert!(out.value(k) == vals[idx[k] as usize]); }
+                k += 1;
+            }
+        }
+        Err(_) => assert!(false),
+    }
+    kani::cover!(!bit(&ibm, 2) && bit(&ibm, 3));
+    std::mem::forget(r);
+    std::mem::forget(indices);
+    std::mem::forget(values);
+}
+
+// Contract (C03 + C01): take_bytes::<BinaryType, Int8Type>(array, indices) on a Binary array of 3 rows
+// (4 symbolic monotone offsets into 6 symbolic bytes) and 2 indices (under check_bounds' postcondition:
+// valid indices in [0,3); garbage under null index slots): Ok; the result is a well-formed Binary array of 2
+// rows — offsets start at 0, monotone, last == values.len() — row k is null <=> index k is null \/ source
+// row idx[k] is null; a non-null row k has exactly the bytes of source row idx[k]. The kernel copies with
+// ptr::copy_nonoverlapping into spare capacity: Kani's memory-safety checks cover those writes.
+macro_rules! take_bytes_unit {
+    ($name:ident, $vnulls:expr, $inulls:expr) => {
+        #[kani::proof]
+        #[kani::unwind(9)]
+        #[kani::stub(alloc::fmt::format, stub_format)]
+        fn $name() {
+            const V: usize = 3;
+            const K: usize = 2;
+            let offs: [i32; 4] = kani::any();
+            kani::assume(offs[0] >= 0 && offs[0] <= offs[1] && offs[1] <= offs[2] && offs[2] <= offs[3] && offs[3] <= 6);
+            let bytes: [u8; 6] = kani::any();
+            let vbm: [u8; 1] = kani::any();
+            let idx: [i8; K] = kani::any();
+            let ibm: [u8; 1] = kani::any();
+            let mut k = 0;
+            while k < K {
+                if !$inulls || bit(&ibm, 2 + k) { kani::assume(idx[k] >= 0 && (idx[k] as usize) < V); }
+                k += 1;
+            }
+            let ob = unsafe { OffsetBuffer::new_unchecked(ScalarBuffer::new(Buffer::from_slice_ref(&offs), 0, 4)) };
+            let a = unsafe {
+                GenericByteArray::<arrow_array::types::BinaryType>::new_unchecked(ob, Buffer::from_slice_ref(&bytes), if $vnulls { Some(mk_nulls(&vbm, 1, V)) } else { None })
+            };
+            let indices = idx_i8(&idx, if $inulls { Some(mk_nulls(&ibm, 2, K)) } else { None });
+            let r = take_bytes(&a, &indices);
+            match &r {
+                Ok(out) => {
+                    assert!(out.len() == K);
+                    let o = out.value_offsets();
+                    assert!(o.len() == K + 1 && o[0] == 0 && o[0] <= o[1] && o[1] <= o[2]);
+                    assert!(o[K] as usize == out.value_data().len());
+                    k = 0;
+                    while k < K {
+                        let inull = $inulls && !bit(&ibm, 2 + k);
+                        let null = inull || ($vnulls && !bit(&vbm, 1 + idx[k] as usize));
+                        assert!(out.is_null(k) == null);
+                        if !null {
+                            let (sa, sb) = (offs[idx[k] as usize] as usize, offs[idx[k] as usize + 1] as usize);
+                            let val = out.value(k);
+                            assert!(val.len() == sb - sa);
+                            let j: usize = kani::any();
+                            if j < sb - sa { assert!(val[j] == bytes[sa + j]); }
+                        }
+                        k += 1;
+                    }
+                }
+                Err(_) => assert!(false),
+            }
+            kani::cover!(idx[0] == 2 && idx[1] == 0 && offs[3] - offs[2] == 2 && offs[1] - offs[0] == 3);
+            kani::cover!(!$inulls || (!bit(&ibm, 2) && bit(&ibm, 3)));
+            std::mem::forget(r);
+            std::mem::forget(indices);
+            std::mem::forget(a);
+        }
+    };
+}
+// @unit name=take_bytes_v3_k2 props=C03,C01 kind=bounded bound=rows=3_value_bytes<=6_indices=2_no_validity fns=take_bytes timeout=900 mem=8 tier=quick
+take_bytes_unit!(take_bytes_v3_k2, false, false);
+// (both validities present: out of memory at 9.9 GB after 859 cpu s — cut; the nullable path of take_bytes is
+// exercised with index validity only)
+// @unit name=take_bytes_v3_k2_index_nulls props=C03,C01 kind=bounded bound=rows=3_value_bytes<=6_indices=2_index_validity_only fns=take_bytes,take_nulls timeout=900 mem=8 tier=thorough note=not_confirmed_not_run
+take_bytes_unit!(take_bytes_v3_k2_index_nulls, false, true);
